@@ -32,7 +32,7 @@ type Recorder struct {
 	CtxLeak    string
 	// CtxExpect: the context values THIS execution passed (nil: none); every callback compares ctx.Get over
 	// CtxUniverse with it
-	CtxExpect map[string]string
+	CtxExpect map[string]any
 	mu        sync.Mutex
 }
 
@@ -115,10 +115,10 @@ func noteCtx(ctx z.Ctx, rec *Recorder) {
 	for _, k := range CtxUniverse {
 		got := ctx.Get(k)
 		want, passed := rec.CtxExpect[k]
-		if (got == nil) != !passed || (passed && got != any(want)) {
+		if (got == nil) != !passed || (passed && got != want) {
 			rec.mu.Lock()
 			if passed {
-				rec.CtxLeak = fmt.Sprintf("Get(%q)=%v, this call passed %q", k, got, want)
+				rec.CtxLeak = fmt.Sprintf("Get(%q)=%#v, this call passed %#v", k, got, want)
 			} else {
 				rec.CtxLeak = fmt.Sprintf("Get(%q)=%v, this call passed no value for it", k, got)
 			}
